@@ -9,6 +9,7 @@ lists over any ordered field (all lengths).  The coded rules themselves (`Fn.con
 `Model/Functionals.lean`) are tied to /repo by the correspondence run.
 -/
 import OdlModel.Lemmas.Functionals
+import OdlModel.Lemmas.WeightedSpace
 import Mathlib.Analysis.InnerProductSpace.Basic
 import Mathlib.Algebra.Order.Field.Basic
 import Mathlib.Algebra.Order.Group.MinMax
@@ -390,6 +391,7 @@ symmetric with inverse multiplication by `1/v`.  Classes without an explicit eva
 conjugate (`FunctionalSum`, products, quotients, compositions, `MoreauEnvelope`, the default
 wrapper) and `InfimalConvolution` (no `_call`) are excluded. -/
 def Reg (o : VecOps E ℝ) : Fn E ℝ → Prop
+  | .coord (.huber γ) => 0 < γ
   | .coord _ => True
   | .l2sq => True
   | .const _ => True
@@ -720,7 +722,7 @@ theorem C08.conj_sound (μ : E → E → E) (cv : Builtin ℝ → E → ℝ)
     (hμ : ∀ (v : E) (c : ℝ) (y : E), μ v (c • y) = c • μ v y)
     (hl1 : FYm (eOps μ cv cd cg) (.coord .l1) (.coord .indLinf))
     (hlinf : FYm (eOps μ cv cd cg) (.coord .indLinf) (.coord .l1))
-    (hhub : ∀ γ, FYm (eOps μ cv cd cg) (.coord (.huber γ))
+    (hhub : ∀ γ, 0 < γ → FYm (eOps μ cv cd cg) (.coord (.huber γ))
       (.qp (.coord .indLinf) (γ / two) false (eOps μ cv cd cg).zero 0))
     (t t' : Fn E ℝ) (hreg : Reg (eOps μ cv cd cg) t) (h : t.conj (eOps μ cv cd cg) = some t') :
     FYm (eOps μ cv cd cg) t t' := by
@@ -738,7 +740,7 @@ theorem C08.conj_sound (μ : E → E → E) (cv : Builtin ℝ → E → ℝ)
       cases b with
       | l1 => simp [Fn.conj] at h; subst h; exact hl1
       | indLinf => simp [Fn.conj] at h; subst h; exact hlinf
-      | huber γ => simp [Fn.conj] at h; subst h; exact hhub γ
+      | huber γ => simp [Fn.conj] at h; subst h; exact hhub γ hreg
   | l2sq =>
       simp [Fn.conj] at h; subst h
       intro x y _ _
@@ -937,23 +939,6 @@ theorem C08.conj_sound (μ : E → E → E) (cv : Builtin ℝ → E → ℝ)
   | menv f P σ _ => exact hreg.elim
   | dconj f _ => exact hreg.elim
 
-/-- Non-vacuity: `f(x) = 2‖x − 3‖²` on `E = ℝ` satisfies `Reg` and has a coded conjugate. -/
-example : ((Fn.trans (.lscal 2 .l2sq) 3 : Fn ℝ ℝ).conj
-      (eOps (· * ·) (fun _ _ => 0) (fun _ _ => false) (fun _ _ => 0))).isSome = true ∧
-    ∀ t', (Fn.trans (.lscal 2 .l2sq) 3 : Fn ℝ ℝ).conj
-        (eOps (· * ·) (fun _ _ => 0) (fun _ _ => false) (fun _ _ => 0)) = some t' →
-      FYm (eOps (· * ·) (fun _ _ => 0) (fun _ _ => false) (fun _ _ => 0))
-        (Fn.trans (.lscal 2 .l2sq) 3) t' := by
-  constructor
-  · have h2 : ¬ ((2 : ℝ) ≤ 0) := by norm_num
-    simp [Fn.conj, Fn.mulScalar, Fn.isLinear, h2]
-  · intro t' h
-    refine C08.conj_sound (E := ℝ) _ _ _ _ (fun v c y => by simp [mul_left_comm]) ?_ ?_ ?_ _ t' ?_ h
-    · intro x y hx; simp [Fn.dom, eOps] at hx
-    · intro x y hx; simp [Fn.dom, eOps] at hx
-    · intro γ x y hx; simp [Fn.dom, eOps] at hx
-    · trivial
-
 /-- Non-vacuity of the `QuadraticForm` case: `f(x) = ⟨x, 2x⟩ + ⟨1, x⟩ + 3` on `E = ℝ`
 (`A = 2·id`, `A⁻¹ = ½·id`) satisfies `Reg`. -/
 example : Reg (eOps (· * ·) (fun _ _ => 0) (fun _ _ => false) (fun _ _ => 0))
@@ -1126,7 +1111,7 @@ theorem C08.conj_sound_eq (μ : E → E → E) (cv : Builtin ℝ → E → ℝ)
     (cd : Builtin ℝ → E → Bool) (cg : Builtin ℝ → E → E)
     (hμ : ∀ (v : E) (c : ℝ) (y : E), μ v (c • y) = c • μ v y)
     (hl1 : FYeqm (eOps μ cv cd cg) (.coord .l1) (.coord .indLinf))
-    (hhub : ∀ γ, FYeqm (eOps μ cv cd cg) (.coord (.huber γ))
+    (hhub : ∀ γ, 0 < γ → FYeqm (eOps μ cv cd cg) (.coord (.huber γ))
       (.qp (.coord .indLinf) (γ / two) false (eOps μ cv cd cg).zero 0))
     (t t' : Fn E ℝ) (hreg : Reg (eOps μ cv cd cg) t) (hg : t.hasGrad = true)
     (h : t.conj (eOps μ cv cd cg) = some t') :
@@ -1143,7 +1128,7 @@ theorem C08.conj_sound_eq (μ : E → E → E) (cv : Builtin ℝ → E → ℝ)
       cases b with
       | l1 => simp [Fn.conj] at h; subst h; exact hl1
       | indLinf => simp [Fn.hasGrad] at hg
-      | huber γ => simp [Fn.conj] at h; subst h; exact hhub γ
+      | huber γ => simp [Fn.conj] at h; subst h; exact hhub γ hreg
   | l2sq =>
       simp [Fn.conj] at h; subst h
       intro x _
@@ -1378,13 +1363,173 @@ theorem C08.conj_sound_eq (μ : E → E → E) (cv : Builtin ℝ → E → ℝ)
   | menv f P σ _ => exact hreg.elim
   | dconj f _ => exact hreg.elim
 
-/-- Non-vacuity: `f(x) = 2‖x − 3‖²` on `E = ℝ` attains equality at its coded gradient. -/
-example : ∀ t', (Fn.trans (.lscal 2 .l2sq) 3 : Fn ℝ ℝ).conj
-        (eOps (· * ·) (fun _ _ => 0) (fun _ _ => false) (fun _ _ => 0)) = some t' →
-      FYeqm (eOps (· * ·) (fun _ _ => 0) (fun _ _ => false) (fun _ _ => 0))
-        (Fn.trans (.lscal 2 .l2sq) 3) t' := by
-  intro t' h
-  refine C08.conj_sound_eq (E := ℝ) _ _ _ _ (fun v c y => by simp [mul_left_comm]) ?_ ?_ _ t' ?_ rfl h
-  · intro x hx; simp [Fn.dom, eOps] at hx
-  · intro γ x hx; simp [Fn.dom, eOps] at hx
-  · trivial
+
+/-! ### Huber equality on weighted lists -/
+section lists3
+variable {K : Type} [Field K] [LinearOrder K] [IsStrictOrderedRing K]
+
+/-- One entry of the Huber pair, equality case: the coded gradient entry lies in `[-1, 1]` and
+attains `h_γ(x) + (γ/2)·g² = x·g`. -/
+theorem C08.huber_scalar_eq (γ x : K) (hγ : 0 < γ) :
+    absK (huberGrad1 γ x) ≤ 1 ∧
+      huberVal1 γ x + γ / two * (huberGrad1 γ x * huberGrad1 γ x) = x * huberGrad1 γ x := by
+  have hne : γ ≠ 0 := ne_of_gt hγ
+  have hxx : x * x = |x| * |x| := by rw [← abs_mul, abs_mul_self]
+  unfold huberVal1 huberGrad1
+  simp only [hγ, if_true, C08.absK_eq, two]
+  split_ifs with h
+  · have hx0 : 0 < |x| := lt_of_lt_of_le hγ h
+    have hne' : |x| ≠ 0 := ne_of_gt hx0
+    have e1 : x / |x| * (x / |x|) = 1 := by
+      rw [div_mul_div_comm, hxx, div_self (mul_ne_zero hne' hne')]
+    have e2 : x * (x / |x|) = |x| := by
+      rw [← mul_div_assoc, hxx, mul_div_assoc, div_self hne', mul_one]
+    refine ⟨?_, ?_⟩
+    · rw [abs_div, abs_abs, div_self hne']
+    · rw [e1, e2]; ring
+  · have hlt : |x| < γ := not_le.mp h
+    refine ⟨?_, ?_⟩
+    · rw [abs_div, abs_of_pos hγ, div_le_one hγ]; exact hlt.le
+    · rw [← hxx]; field_simp
+
+/-- `Huber.convex_conj` as coded attains Fenchel–Young EQUALITY at the coded `Huber.gradient`,
+on every weighted list space (all lengths, any ordered field). -/
+theorem C08.huber_conj_eq (γ : K) (hγ : 0 < γ) (w x : List K) :
+    inLinfBall (x.map (huberGrad1 γ)) = true ∧
+      huberW γ w x + γ / two * innerW w (x.map (huberGrad1 γ)) (x.map (huberGrad1 γ))
+        = innerW w x (x.map (huberGrad1 γ)) := by
+  constructor
+  · induction x with
+    | nil => simp [inLinfBall]
+    | cons x0 xs ih => simp [inLinfBall, ih, (C08.huber_scalar_eq γ x0 hγ).1]
+  · induction w generalizing x with
+    | nil => simp [innerW, huberW]
+    | cons a ws ih =>
+        cases x with
+        | nil => simp [innerW, huberW]
+        | cons x0 xs =>
+            simp only [List.map_cons, innerW, huberW]
+            have h0 := (C08.huber_scalar_eq γ x0 hγ).2
+            have := ih xs
+            calc a * huberVal1 γ x0 + huberW γ ws xs +
+                  γ / two * (a * huberGrad1 γ x0 * huberGrad1 γ x0 +
+                    innerW ws (xs.map (huberGrad1 γ)) (xs.map (huberGrad1 γ)))
+                = a * (huberVal1 γ x0 + γ / two * (huberGrad1 γ x0 * huberGrad1 γ x0)) +
+                  (huberW γ ws xs + γ / two *
+                    innerW ws (xs.map (huberGrad1 γ)) (xs.map (huberGrad1 γ))) := by ring
+              _ = a * (x0 * huberGrad1 γ x0) + innerW ws xs (xs.map (huberGrad1 γ)) := by
+                  rw [h0, this]
+              _ = a * x0 * huberGrad1 γ x0 + innerW ws xs (xs.map (huberGrad1 γ)) := by ring
+end lists3
+
+/-! ### The leaf hypotheses DISCHARGED on the weighted spaces `WSp w` (all `n`, all weights `> 0`)
+with the coordinate-wise built-ins computed by the list functions the driver executes -/
+section weighted
+variable {n : ℕ} (w : Fin n → ℝ) [hw : Fact (∀ i, 0 < w i)]
+
+theorem C08.wOps_l1_pair : FYm (wOps w) (.coord .l1) (.coord .indLinf) := by
+  intro x y _ hy
+  have := C08.l1_linf_conj (List.ofFn w) (List.ofFn x.val) (List.ofFn y.val) (weights_nonneg w) hy
+  rw [wOps_inner]
+  exact this
+
+theorem C08.wOps_linf_pair : FYm (wOps w) (.coord .indLinf) (.coord .l1) := by
+  intro x y hx _
+  have := C08.l1_linf_conj (List.ofFn w) (List.ofFn y.val) (List.ofFn x.val) (weights_nonneg w) hx
+  have hc : (wOps w).inner x y = (wOps w).inner y x := real_inner_comm _ _
+  rw [hc, wOps_inner]
+  have e : (Fn.coord Builtin.indLinf : Fn (WSp w) ℝ).value (wOps w) x
+      + (Fn.coord Builtin.l1 : Fn (WSp w) ℝ).value (wOps w) y
+      = (listOps (List.ofFn w)).cval .l1 (List.ofFn y.val)
+        + (listOps (List.ofFn w)).cval .indLinf (List.ofFn x.val) := add_comm _ _
+  rw [e]
+  exact this
+
+theorem C08.wOps_zero_val : List.ofFn ((wOps w).zero : WSp w).val = (List.ofFn w).map fun _ => (0 : ℝ) := by
+  show List.ofFn (fun _ : Fin n => (0 : ℝ)) = _
+  rw [List.map_ofFn]; rfl
+
+theorem C08.wOps_huber_pair (γ : ℝ) (hγ : 0 < γ) :
+    FYm (wOps w) (.coord (.huber γ)) (.qp (.coord .indLinf) (γ / two) false (wOps w).zero 0) := by
+  intro x y _ hy
+  obtain ⟨t', ht', hfy⟩ := C08.huber_conj γ hγ (List.ofFn w) (List.ofFn x.val) (List.ofFn y.val)
+    (weights_nonneg w)
+  simp only [Fn.conj, Option.some.injEq] at ht'
+  subst ht'
+  have h2 := hfy (by simp only [Fn.dom] at hy ⊢; exact hy)
+  simp only [Fn.value] at h2 ⊢
+  rw [wOps_inner, wOps_inner, wOps_inner, C08.wOps_zero_val]
+  exact h2
+
+theorem C08.wOps_grad_val (b : Builtin ℝ) (φ : ℝ → ℝ)
+    (hb : ∀ l, (listOps (List.ofFn w)).cgrad b l = l.map φ) (x : WSp w) :
+    List.ofFn ((Fn.coord b : Fn (WSp w) ℝ).grad (wOps w) x).val = (List.ofFn x.val).map φ := by
+  show List.ofFn (ofL ((listOps (List.ofFn w)).cgrad b (List.ofFn x.val)) : Fin n → ℝ) = _
+  rw [hb, ofL_map_ofFn, List.map_ofFn]; rfl
+
+theorem C08.wOps_l1_eq : FYeqm (wOps w) (.coord .l1) (.coord .indLinf) := by
+  intro x _
+  have hg := C08.wOps_grad_val w .l1 signK (fun l => rfl) x
+  obtain ⟨h1, h2⟩ := C08.l1_linf_conj_eq (List.ofFn w) (List.ofFn x.val)
+  refine ⟨?_, ?_⟩
+  · show inLinfBall (List.ofFn ((Fn.coord Builtin.l1 : Fn (WSp w) ℝ).grad (wOps w) x).val) = true
+    rw [hg]; exact h1
+  · rw [wOps_inner, hg]
+    show (listOps (List.ofFn w)).cval .l1 (List.ofFn x.val) +
+      (listOps (List.ofFn w)).cval .indLinf
+        (List.ofFn ((Fn.coord Builtin.l1 : Fn (WSp w) ℝ).grad (wOps w) x).val) = _
+    rw [hg]; exact h2
+
+theorem C08.wOps_huber_eq (γ : ℝ) (hγ : 0 < γ) :
+    FYeqm (wOps w) (.coord (.huber γ)) (.qp (.coord .indLinf) (γ / two) false (wOps w).zero 0) := by
+  intro x _
+  have hg := C08.wOps_grad_val w (.huber γ) (huberGrad1 γ) (fun l => rfl) x
+  obtain ⟨h1, h2⟩ := C08.huber_conj_eq γ hγ (List.ofFn w) (List.ofFn x.val)
+  refine ⟨?_, ?_⟩
+  · show inLinfBall (List.ofFn ((Fn.coord (Builtin.huber γ) : Fn (WSp w) ℝ).grad (wOps w) x).val) = true
+    rw [hg]; exact h1
+  · simp only [Fn.value]
+    rw [wOps_inner, wOps_inner, wOps_inner, hg, C08.wOps_zero_val]
+    show huberW γ (List.ofFn w) (List.ofFn x.val) + (0 + γ / two * innerW (List.ofFn w) _ _ +
+      innerW (List.ofFn w) _ ((List.ofFn w).map fun _ => (0 : ℝ)) + 0) = innerW (List.ofFn w) _ _
+    rw [C08.innerW_zero_right, ← h2]; ring
+
+/-- **Fenchel–Young for the coded conjugation rules on the weighted spaces, WITHOUT leaf
+hypotheses**: for every `n`, all positive weights `w` (`rn`, weighted `rn`, `uniform_discr`),
+every expression `t` satisfying the side conditions `Reg` whose coordinate-wise leaves (L1,
+indicator of the L∞ ball, Huber) are evaluated by the list functions the driver executes:
+`⟨x, y⟩_w ≤ t(x) + t*(y)` wherever both are finite. -/
+theorem C08.conj_sound_weighted (t t' : Fn (WSp w) ℝ) (hreg : Reg (wOps w) t)
+    (h : t.conj (wOps w) = some t') : FYm (wOps w) t t' :=
+  C08.conj_sound _ _ _ _ (wOps_mul_smul w) (C08.wOps_l1_pair w) (C08.wOps_linf_pair w)
+    (C08.wOps_huber_pair w) t t' hreg h
+
+/-- … and EQUALITY at the coded gradient, without leaf hypotheses. -/
+theorem C08.conj_sound_eq_weighted (t t' : Fn (WSp w) ℝ) (hreg : Reg (wOps w) t)
+    (hg : t.hasGrad = true) (h : t.conj (wOps w) = some t') : FYeqm (wOps w) t t' :=
+  C08.conj_sound_eq _ _ _ _ (wOps_mul_smul w) (C08.wOps_l1_eq w) (C08.wOps_huber_eq w) t t' hreg hg h
+end weighted
+
+/-! Non-vacuity on a concrete weighted space: `uniform_discr(0, 1/2, 2)` (two cells of volume
+1/4), `f(x) = 2·Huber_{1/2}(x − (1, −1))` — a tree WITH a coordinate-wise leaf. -/
+section example_weighted
+instance exw : Fact (∀ i, 0 < (![1 / 4, 1 / 4] : Fin 2 → ℝ) i) :=
+  ⟨by intro i; fin_cases i <;> norm_num⟩
+
+example :
+    ((Fn.lscal 2 (.trans (.coord (.huber (1 / 2))) (WSp.of ![1, -1])) :
+        Fn (WSp ![1 / 4, 1 / 4]) ℝ).conj (wOps ![1 / 4, 1 / 4])).isSome = true ∧
+    ∀ t', (Fn.lscal 2 (.trans (.coord (.huber (1 / 2))) (WSp.of ![1, -1])) :
+        Fn (WSp ![1 / 4, 1 / 4]) ℝ).conj (wOps ![1 / 4, 1 / 4]) = some t' →
+      FYm (wOps ![1 / 4, 1 / 4]) (.lscal 2 (.trans (.coord (.huber (1 / 2))) (WSp.of ![1, -1]))) t' ∧
+      FYeqm (wOps ![1 / 4, 1 / 4]) (.lscal 2 (.trans (.coord (.huber (1 / 2))) (WSp.of ![1, -1]))) t' := by
+  have hreg : Reg (wOps ![1 / 4, 1 / 4])
+      (Fn.lscal 2 (.trans (.coord (.huber (1 / 2))) (WSp.of ![1, -1])) : Fn (WSp ![1 / 4, 1 / 4]) ℝ) := by
+    show (0 : ℝ) < 1 / 2
+    norm_num
+  constructor
+  · have h2 : ¬ ((2 : ℝ) ≤ 0) := by norm_num
+    simp [Fn.conj, h2]
+  · intro t' h
+    exact ⟨C08.conj_sound_weighted _ _ t' hreg h, C08.conj_sound_eq_weighted _ _ t' hreg rfl h⟩
+end example_weighted
